@@ -521,7 +521,8 @@ Definition to_bstr_lossy (e : event) : bytes :=
 Fixpoint ends_with_newline_rev (rev_events : list event) (nl : bytes) : bool :=
   match rev_events with
   | [] => false
-  | e :: r => if forallb is_ascii_ws (to_bstr_lossy e)
+  | e :: r => if match e with Whitespace _ | Newline _ => true | _ => false end
+                 && forallb is_ascii_ws (to_bstr_lossy e)
               then (if contains (to_bstr_lossy e) nl then true else ends_with_newline_rev r nl)
               else false
   end.
@@ -565,6 +566,7 @@ Fixpoint section_body_write (evs : list event) (nl : bytes) (saw_newline_after_v
       let saw := match e with
                  | SectionValueName _ => false
                  | Newline _ => if in_key_value_pair then saw_newline_after_value else true
+                 | Comment _ _ => false
                  | _ => saw_newline_after_value end in
       let inkv := match e with
                   | SectionValueName _ => true
